@@ -30,6 +30,10 @@ def poisons():
         ("colliding-keys", lambda: {1: "a", "1": "b"}),
         ("lambda", lambda: (lambda x: x)),
         ("raising-reduce", lambda: U.RaisesReduce() if hasattr(U, "RaisesReduce") else memoryview(b"x")),
+        # a persistable instance of the class comes first, the refusing one after it
+        ("conditional-reduce", lambda: [U.SometimesRaises(True), {"k": U.SometimesRaises(True)}, U.SometimesRaises(False)]),
+        ("stopiteration-getstate", lambda: U.RaisesStopIteration()),
+        ("stopiteration-in-tuple", lambda: (1, [2, U.RaisesStopIteration()], 3)),
     ]
 
 
